@@ -26,6 +26,7 @@ const (
 	kwReturn = "\u09ab\u09c7\u09b0\u09a4"
 	kwWhile  = "\u09af\u09a4\u0995\u09cd\u09b7\u09a3"
 	kwFor    = "\u09ab\u09b0"
+	kwElse   = "\u09a8\u09be\u09b9\u09df"
 )
 
 // runSource: the real pipeline on a concrete program; returns what it printed, line by line.
@@ -306,6 +307,11 @@ func VH_diagQuoted(which int) {
 		env.Define("i", 3.0)
 		idx := &ast.Binary{Left: &ast.Identifier{Name: tok(token.IDENTIFIER, "i", L), Line: L}, Operator: tok(token.MODULO, "%", L), Right: &ast.Literal{Value: 2.0, Line: L}, Line: L}
 		node = &ast.PropertyAccess{Object: &ast.ArrayAccess{Array: &ast.Identifier{Name: tok(token.IDENTIFIER, "t", L), Line: L}, Index: idx, Line: L}, Property: tok(token.IDENTIFIER, "missing", L), Line: L}
+	case 3:
+		// a long object expression in multi-byte characters: t<name>[0].<name>.missing
+		long := strings.Repeat("\u09b6\u09bf\u0995\u09cd\u09b7\u09be", 1+verifChoice(6))
+		env.Define(long, []interface{}{map[string]interface{}{long: map[string]interface{}{"a": 1.0}}})
+		node = &ast.PropertyAccess{Object: &ast.PropertyAccess{Object: &ast.ArrayAccess{Array: &ast.Identifier{Name: tok(token.IDENTIFIER, long, L), Line: L}, Index: &ast.Literal{Value: 0.0, Line: L}, Line: L}, Property: tok(token.IDENTIFIER, long, L), Line: L}, Property: tok(token.IDENTIFIER, "missing", L), Line: L}
 	default:
 		env.Define("o", map[string]interface{}{"a": 1.0})
 		callee := &ast.Literal{Value: NativeDeleteFn{}, Line: L}
@@ -462,4 +468,124 @@ func VH_loopClosure() {
 	got, ok := runSource(src)
 	verifAssert("closure-program-runs", ok)
 	verifAssert("closure-counters-are-separate-and-persistent", sameLines(got, want))
+}
+
+// VH_factoryPlacement (C04/C03): a counter factory whose inner function is declared directly in
+// the body, in a bare block, in the then-branch, in the else-branch, at the end of an else-if
+// chain, or in a loop body. Three factory calls, then calls of the three counters in an
+// arbitrary order: each counter owns its variable (and its tag parameter), whatever later
+// calls of the factory did.
+func VH_factoryPlacement() {
+	place := verifChoice(6)
+	inner := kwFun + " inc() { c = c + 1; " + kwReturn + " tag * 100 + c; } " + kwReturn + " inc;"
+	var body string
+	switch place {
+	case 0:
+		body = inner
+	case 1:
+		body = "{ " + inner + " }"
+	case 2:
+		body = kwIf + " (tag > 0) { " + inner + " } " + kwElse + " { " + kwReturn + " nil; }"
+	case 3:
+		body = kwIf + " (tag < 0) { " + kwReturn + " nil; } " + kwElse + " { " + inner + " }"
+	case 4:
+		body = kwIf + " (tag < 0) { " + kwReturn + " nil; } " + kwElse + " " + kwIf + " (tag == 0) { " + kwReturn + " nil; } " + kwElse + " { " + inner + " }"
+	default:
+		body = kwWhile + " (tag > 0) { " + inner + " }"
+	}
+	src := kwFun + " make(tag) { " + kwVar + " c = 0; " + body + " }\n" +
+		kwVar + " f1 = make(1);\n" + kwVar + " f2 = make(2);\n" + kwVar + " f3 = make(3);\n"
+	cnt := [3]int{0, 0, 0}
+	var want []string
+	for i := 0; i < 3; i++ {
+		k := verifChoice(3)
+		cnt[k]++
+		want = append(want, fmt.Sprint((k+1)*100+cnt[k]))
+		src += fmt.Sprintf("%s f%d();\n", kwPrint, k+1)
+	}
+	got, ok := runSource(src)
+	verifAssert("closure-program-runs", ok)
+	verifAssert("closure-counters-are-separate-and-persistent", sameLines(got, want))
+}
+
+// VH_manyCalls (C04): n completed calls of a function that falls off its end (no ফেরত), one
+// after the other, then an ordinary call: activations that have ended leave nothing behind
+// that a later call could trip over (no call budget is used up by calls that returned).
+func VH_manyCalls(n int) {
+	src := kwVar + " t = 0;\n" +
+		kwFun + " tick() { t = t + 1; }\n" +
+		kwFun + " twice(x) { " + kwReturn + " x * 2; }\n" +
+		fmt.Sprintf("%s (%s i = 0; i < %d; i = i + 1) { tick(); }\n", kwFor, kwVar, n) +
+		kwPrint + " twice(21);\n" + kwPrint + " t;\n" + kwPrint + " tick();\n"
+	got, ok := runSource(src)
+	verifAssert("call-program-runs", ok)
+	verifAssert("call-after-many-completed-calls", sameLines(got, []string{"42", fmt.Sprint(n), "nil"}))
+}
+
+// VH_constInit (C13): an object literal all of whose initialisers are constant expressions, two
+// or three of which fail at run time (division by zero, minus on text, negative shift count),
+// each on its own line. Which one fails first is the first one in source order, every time: the
+// literal is parsed and run twice and the first diagnostic must be the same (and name line 2).
+func VH_constInit(nkeys int) {
+	var texts [2]string
+	var lines [2]int
+	for run := 0; run < 2; run++ {
+		toks := []token.Token{tk(token.PRINT, "print", nil, 1), tk(token.LEFT_PAREN, "(", nil, 1), tk(token.LEFT_BRACE, "{", nil, 1)}
+		for i := 0; i < nkeys; i++ {
+			ln := i + 2
+			if i > 0 {
+				toks = append(toks, tk(token.COMMA, ",", nil, ln-1))
+			}
+			toks = append(toks, tk(token.IDENTIFIER, obKeys[i], nil, ln), tk(token.COLON, ":", nil, ln))
+			switch i % 3 {
+			case 0:
+				toks = append(toks, tk(token.NUMBER, "1", 1.0, ln), tk(token.SLASH, "/", nil, ln), tk(token.NUMBER, "0", 0.0, ln))
+			case 1:
+				toks = append(toks, tk(token.MINUS, "-", nil, ln), tk(token.STRING, "\"x\"", []rune("x"), ln))
+			default:
+				toks = append(toks, tk(token.NUMBER, "1", 1.0, ln), tk(token.LEFT_SHIFT, "<<", nil, ln), tk(token.MINUS, "-", nil, ln), tk(token.NUMBER, "1", 1.0, ln))
+			}
+		}
+		toks = append(toks, tk(token.RIGHT_BRACE, "}", nil, nkeys+2), tk(token.RIGHT_PAREN, ")", nil, nkeys+2), tk(token.SEMICOLON, ";", nil, nkeys+2), tk(token.EOF, "", nil, nkeys+2))
+		utils.HadError, utils.HadRuntimeError = false, false
+		stmts, err := parser.NewParser(toks).Parse()
+		if err != nil {
+			verifAssert("constant-literal-program-parses", false)
+			return
+		}
+		verifClearEvents()
+		NewInterpreter().Interpret(stmts, false)
+		verifAssert("missing-diagnostic", utils.HadRuntimeError && hvCountStderr() >= 1)
+		for i := 0; i < verifNumEvents(); i++ {
+			if verifEventKind(i) == 2 {
+				texts[run] = verifEventText(i)
+				lines[run] = verifEventB(i)
+				break
+			}
+		}
+	}
+	verifAssert("diagnostic-text-repeats", texts[0] == texts[1])
+	verifAssert("initialisers-run-in-source-order", lines[0] == 2 && lines[1] == 2)
+}
+
+// renamePool: identifiers a program may choose — Latin, Bangla, with combining marks, in or out
+// of NFC (the lexer takes letters and marks as they come).
+var renamePool = []string{"x", "total", "\u09ae\u09cb\u099f", "\u09ac\u09dc", "k\u09df", "cafe\u0301", "\u0995\u09c7\u09be", "\u0995\u09cb", "caf\u00e9"}
+
+// VH_rename (C18d): the same program under a consistent renaming of its variable, function and
+// parameter prints the same: declaration, read, plain assignment in a loop, a function taking
+// and assigning its parameter, a call.
+func VH_rename() {
+	base := renamePool[verifChoice(len(renamePool))]
+	n, f, p := base, base+"f", base+"p"
+	src := kwVar + " " + n + " = 0;\n" +
+		kwFor + " (" + kwVar + " i = 1; i <= 3; i = i + 1) { " + n + " = " + n + " + i; }\n" +
+		kwPrint + " " + n + ";\n" +
+		kwFun + " " + f + "(" + p + ") { " + p + " = " + p + " + 1; " + kwReturn + " " + p + " * 2; }\n" +
+		kwPrint + " " + f + "(" + n + ");\n" +
+		"{ " + kwVar + " " + n + " = 100; " + n + " = " + n + " + 1; " + kwPrint + " " + n + "; }\n" +
+		kwPrint + " " + n + ";\n"
+	got, ok := runSource(src)
+	verifAssert("renamed-program-runs", ok)
+	verifAssert("renaming-does-not-change-what-is-printed", sameLines(got, []string{"6", "14", "101", "6"}))
 }
